@@ -24,6 +24,22 @@ def data_for(case, size):
     return rng.integers(-50, 51, size=size).astype(DT[case["dt"]])
 
 
+def lay2d(x, how):
+    """the same 2-D values in another memory layout"""
+    d1, d2 = x.shape
+    if how == "F":
+        return np.asfortranarray(x)
+    if how == "slicedT":
+        big = np.zeros((d2, d1 + 3), dtype=x.dtype)      # stored transposed, with extra rows around
+        big[:, 2:2 + d1] = x.T
+        return big.T[2:2 + d1]
+    if how == "strided":
+        big = np.zeros((d1, 2 * d2), dtype=x.dtype)
+        big[:, ::2] = x
+        return big[:, ::2]
+    return x
+
+
 class C14(Prop):
     id = "C14"
     rule = ("running mean/median for ALL lengths 1..24 x widths 1..2n+3 (quick: a random half), decimation of 1-D, 2-D "
@@ -53,7 +69,10 @@ class C14(Prop):
                 d1, d2 = rng.randint(1, 9), rng.randint(1, 12)
                 cases.append({"op": op, "d1": d1, "d2": d2, "f1": rng.randint(1, d1), "f2": rng.randint(1, d2),
                               "method": rng.choice(("mean", "median")), "dt": rng.choice(("f4", "f8", "u1")) if op != "blk_down" else "f4",
-                              "dseed": rng.randrange(1 << 30)})
+                              "dseed": rng.randrange(1 << 30),
+                              # memory layout of the 2-D input: C order, Fortran order (what the readers hand out), a
+                              # slice of a transposed array (a sub-band of a block: neither C nor F contiguous), strided
+                              "layout": rng.choice(("c", "c", "F", "slicedT", "strided")) if op != "down2dflat" else "c"})
         for _ in range(40 * k):
             cases.append({"op": "detrend", "n": rng.choice((1, 2, 3, 5, 17, 64)), "dt": rng.choice(("f4", "f8")),
                           "dseed": rng.randrange(1 << 30)})
@@ -107,7 +126,7 @@ class C14(Prop):
                 x = data_for(case, case["n"])
                 out = S.downsample_1d(x, case["f"], method=case["method"])
             elif op == "down2d":
-                x = data_for(case, case["d1"] * case["d2"]).reshape(case["d1"], case["d2"])
+                x = lay2d(data_for(case, case["d1"] * case["d2"]).reshape(case["d1"], case["d2"]), case.get("layout", "c"))
                 out = S.downsample_2d(x, (case["f1"], case["f2"]), method=case["method"])
             elif op == "down2dflat":
                 x = data_for(case, case["d1"] * case["d2"])
@@ -128,7 +147,7 @@ class C14(Prop):
             else:
                 from sigpyproc.block import FilterbankBlock
                 from .c04 import mk_header
-                x = data_for(case, case["d1"] * case["d2"]).reshape(case["d1"], case["d2"])
+                x = lay2d(data_for(case, case["d1"] * case["d2"]).reshape(case["d1"], case["d2"]), case.get("layout", "c"))
                 b = FilterbankBlock(x, mk_header(case["d1"], 32, nsamples=case["d2"]))
                 o = b.downsample(ffactor=case["f1"], tfactor=case["f2"], filter_method=case["method"])
                 return {"out": [float(v) for v in o.data.ravel()], "shape": list(o.data.shape), "dtype": str(o.data.dtype),
